@@ -27,3 +27,29 @@ package specs
 
 //@ func time.(Time).Unix
 //@ pure
+
+// ---- blst (cgo): assumed not to panic and not to touch Go-visible memory ---------------
+//@ func github.com/supranational/blst/bindings/go.*
+//@ assigns nothing
+
+// ---- encoding/binary big-endian helpers -------------------------------------------------
+//@ func encoding/binary.(bigEndian).PutUint32
+//@ requires[room] len(b) >= 4
+//@ assigns b[0:4]
+//@ func encoding/binary.(bigEndian).PutUint64
+//@ requires[room] len(b) >= 8
+//@ assigns b[0:8]
+//@ func encoding/binary.(bigEndian).PutUint16
+//@ requires[room] len(b) >= 2
+//@ assigns b[0:2]
+//@ func encoding/binary.(bigEndian).Uint32
+//@ requires[room] len(b) >= 4
+//@ pure
+//@ func encoding/binary.(bigEndian).Uint64
+//@ requires[room] len(b) >= 8
+//@ pure
+//@ func encoding/binary.(bigEndian).Uint16
+//@ requires[room] len(b) >= 2
+//@ pure
+//@ func bytes.Compare
+//@ pure
